@@ -319,6 +319,32 @@ def groups_of(binary, args, env):
     return sorted(sorted(os.path.basename(f) for f in g["files"]) for g in js.get("groups", []))
 
 
+_RW = {}
+
+
+def concurrent_rewrite_replay(ctx):
+    """native (replay/hasher_cache_test.rs): a file is rewritten in place while hash_file reads it; a later cached call must not
+    return the hash of the bytes read before the rewrite"""
+    if "r" in _RW:
+        return _RW["r"]
+    import sys
+    from common import VERIF, copy_repo, scratch_root
+    sys.path.insert(0, os.path.join(VERIF, "replay"))
+    devs = []
+    try:
+        import native_driver
+        src = copy_repo("hasher-replay-src")
+        drv = native_driver.NativeDriver(src, scratch_root(), [("hasher", "hasher_cache_test.rs", "verif_hasher_cache_test")])
+        out = drv.run("hasher::verif_hasher_cache_test::verif_hasher_cache_driver", ["RW " + os.path.join(scratch_root(), "rw-replay").encode().hex()], "hc")
+        if out and out[0].startswith("stale"):
+            devs.append({"history": "file rewritten in place (same length, new mtime) while hash_file was reading it; next cached call",
+                         "cached": out[0].split()[1], "uncached": out[0].split()[2]})
+    except Exception:   # noqa
+        pass
+    _RW["r"] = devs
+    return devs
+
+
 def battery(o, ctx):
     """fallback confirmation: the cached-vs-uncached history battery (replay/batteries.py) on the real binary"""
     import sys
@@ -330,6 +356,8 @@ def battery(o, ctx):
         o.verdict, o.detail = "inconclusive", "replay build failed: %s" % e
         return
     devs = batteries.c12_battery(binary)
+    if not devs:
+        devs = concurrent_rewrite_replay(ctx)
     o.cex = dict(o.cex or {}, native_battery=devs[:5])
     if devs:
         o.verdict = "violated"
